@@ -15,6 +15,14 @@ CHECKS = {
             "§6 C04",
             "unbounded proof (induction over the sector loop) + extraction + differential correspondence",
             "Modelled, not verified: cstruct, struct.Struct('>I'), lru_cache transparency (file immutable), AlignedStream transcription. WF: block size a multiple of 4096, BAT inside the file, allocated blocks inside the file, size within BAT coverage."),
+    "C06": ("Lean 4 theorems hds_read_correct / hds_backendOK / hds_stream_correct over a model of HDS.__init__, the cached BAT, _iter_runs (sentinel-0 run coalescer) and _read; the coalescing proof carries an invariant on the pending run, so the sparse-run/offset coincidence is covered for all geometries; layouts/constants re-extracted each run; model, real code and construction truth compared on generated v1/v2 images and parent chains",
+            "§6 C06",
+            "unbounded proof (induction over the run iterator with a pending-run invariant) + extraction + differential correspondence",
+            "Modelled, not verified: cstruct, cached_property, AlignedStream transcription, parent stream seek/read. WF: cluster size and multiplier positive, BAT covers the disk, allocated clusters inside the file. Parent assumed at least as large as the child's cluster coverage."),
+    "C03": ("Lean 4 theorems vhdx_read_correct / bat_index_matches_layout / vhdx_backendOK / vhdx_stream_correct over a model of VHDX.__init__ (file identifier, headers, region table, metadata table incl. skipping unknown optional items), BlockAllocationTable (pb/sb index, bounds, bit-field decode) and read_sectors; layouts/GUIDs/constants re-extracted each run; model, real code and construction truth compared on generated images (block sizes 1..256 MiB, > chunk-ratio blocks, sparse multi-GiB files)",
+            "§6 C03",
+            "unbounded proof (induction over the block loop; BAT index arithmetic for every chunk ratio) + extraction + differential correspondence",
+            "Modelled, not verified: cstruct (bit-fields re-probed), UUID comparison, lru_cache, AlignedStream transcription. WF: no parent, block size = whole sectors, chunk ratio > 0, BAT inside the file, payload states in {0,1,2,3,6}, present blocks inside the file."),
 }
 
 NOT_YET = {
